@@ -5,6 +5,8 @@ CONSTANTS
   AllowedSets <- MCAllowedSets
   MaxCalls = 3
   Devs = {}
+  Life = "off"
+  LifeLetters = 0
   Depth2 = FALSE
 VIEW MCView
 ACTION_CONSTRAINT EmitVector
